@@ -18,7 +18,7 @@ def delete_fields(fields, resources=None, regex=True):
         matcher = ResourceMatcher(resources, package.pkg)
         dp_resources = package.pkg.descriptor.get('resources', [])
         field_res = [
-            re.compile('^(?:{})$'.format(f if regex else re.escape(f))) for f in fields
+            re.compile('^(?:{})\\Z'.format(f if regex else re.escape(f))) for f in fields
         ]
         matched = set()
         new_field_names = {}
